@@ -23,8 +23,11 @@ package engine
 import (
 	"go/ast"
 	"go/token"
-	"path/filepath"
+	"path"
 	"reflect"
+	"strconv"
+	"strings"
+	"unicode"
 
 	"github.com/uber-go/gopatch/internal/data"
 	"github.com/uber-go/gopatch/internal/goast"
@@ -246,9 +249,7 @@ func (r ImportReplacer) Replace(d data.Data, cl Changelog, f *ast.File) (string,
 		}
 
 	} else {
-		// TODO: more sophisticated package name guessing logic here
-		// and below.
-		pkgName = filepath.Base(r.Path)
+		pkgName = assumedPackageName(r.Path)
 	}
 
 	if !astutil.AddNamedImport(r.Fset, f, name, r.Path) {
@@ -258,6 +259,30 @@ func (r ImportReplacer) Replace(d data.Data, cl Changelog, f *ast.File) (string,
 }
 
 // ImportsReplacer replaces a block of imports.
+// assumedPackageName guesses the name by which a file refers to the package
+// with the given import path when the import is unnamed. Like goimports, it
+// takes the last element of the path, skipping a major version suffix
+// ("example.com/foo/v2" is package foo), drops a "go-" prefix and cuts the
+// element where it stops being an identifier ("gopkg.in/yaml.v3" is package
+// yaml).
+func assumedPackageName(importPath string) string {
+	base := path.Base(importPath)
+	if len(base) > 1 && base[0] == 'v' {
+		if _, err := strconv.Atoi(base[1:]); err == nil {
+			if dir := path.Dir(importPath); dir != "." {
+				base = path.Base(dir)
+			}
+		}
+	}
+	base = strings.TrimPrefix(base, "go-")
+	if i := strings.IndexFunc(base, func(r rune) bool {
+		return r != '_' && !unicode.IsLetter(r) && !unicode.IsDigit(r)
+	}); i >= 0 {
+		base = base[:i]
+	}
+	return base
+}
+
 type ImportsReplacer struct {
 	Imports []ImportReplacer
 	Fset    *token.FileSet
@@ -321,7 +346,7 @@ func (r ImportsReplacer) Cleanup(d data.Data, f *ast.File, newNames []string) er
 		}
 
 		if len(pkgName) == 0 {
-			pkgName = filepath.Base(imp)
+			pkgName = assumedPackageName(imp)
 		}
 
 		// If this import was replaced by an added import, kill it.
